@@ -364,3 +364,14 @@ Proof.
         (conj (rel_scale_tab_b_sound n m c M M') (conj (rel_conj_tab_b_sound D R M M')
         (orth_b_sound D R))))))).
 Qed.
+
+Lemma main_translation_lltsa_f42 : forall F (Fo : FieldOps F) (Ff : IsField F) n (W' : mat F) (t : vec F) (X : mat F) a b,
+  of_nat n <> 0%F ->
+  lltsa_lhs_f42 n W' (translate t X) a b = lltsa_lhs_f42 n W' X a b /\
+  lltsa_rhs_f42 n (translate t X) a b = lltsa_rhs_f42 n X a b /\
+  lltsa_rhs_f42 n X a b = lltsa_rhs n X a b.
+Proof.
+  intros F Fo Ff n W' t X a b Hn.
+  destruct (lltsa_f42_translate n W' t X a b Hn) as [H1 H2].
+  exact (conj H1 (conj H2 (lltsa_rhs_f42_is_lltsa_rhs n X a b Hn))).
+Qed.
